@@ -25,6 +25,36 @@ ENTROPY_FUNCS = {
 }
 
 
+NON_INJECTIVE_ATTRS = {"lower", "upper", "casefold", "swapcase", "title", "capitalize", "name", "stem", "suffix", "suffixes", "parent", "strip", "lstrip", "rstrip"}
+
+
+def _sort_key_injective(call: ast.Call) -> bool:
+    """``sorted(xs)`` orders totally; ``sorted(xs, key=K)`` only up to ties of ``K``, and ties keep the input
+    order (the sort is stable).  A key is accepted when it cannot map two different elements to one value: the
+    element itself, ``str``/``repr`` of it, ``as_posix()``, ``parts``, a tuple containing such a component."""
+    key = next((kw.value for kw in call.keywords if kw.arg == "key"), None)
+    if key is None:
+        return True
+    if not isinstance(key, ast.Lambda) or len(key.args.args) != 1:
+        return dotted_of(key) in ("str", "repr")
+    x = key.args.args[0].arg
+
+    def inj(e: ast.AST) -> bool:
+        if isinstance(e, ast.Name) and e.id == x:
+            return True
+        if isinstance(e, ast.Tuple):
+            return any(inj(c) for c in e.elts)
+        if isinstance(e, ast.Call) and dotted_of(e.func) in ("str", "repr") and len(e.args) == 1:
+            return inj(e.args[0])
+        if isinstance(e, ast.Call) and isinstance(e.func, ast.Attribute) and e.func.attr in ("as_posix", "__str__", "resolve", "absolute") and not e.args:
+            return inj(e.func.value)
+        if isinstance(e, ast.Attribute) and e.attr in ("parts",):
+            return inj(e.value)
+        return False
+
+    return inj(key.body)
+
+
 def _is_set_type(t: T) -> bool:
     t = strip_opt(t)
     return isinstance(t, Seq) and t.coll in SET_COLLS
@@ -62,6 +92,8 @@ def check_sets_and_listings(ctx, f: FuncInfo, rule_set: str, rule_fs: str) -> No
             d = dotted_of(par.func)
             if node in par.args or any(kw.value is node for kw in par.keywords):
                 if d in ORDER_FREE_CONSUMERS:
+                    if d == "sorted" and not _sort_key_injective(par):
+                        return "ordered", par
                     return "free", par
                 if d in ("list", "tuple", "enumerate", "iter", "next", "reversed", "zip", "map", "filter", "itertools.chain", "collections.OrderedDict", "dict", "str", "repr"):
                     return "ordered", par
@@ -125,7 +157,10 @@ def check_sets_and_listings(ctx, f: FuncInfo, rule_set: str, rule_fs: str) -> No
             if how == "free":
                 ctx.ok(rule_fs, f, n, what=what + " consumed through an order-free function")
             else:
-                ctx.fail(rule_fs, f, n, f"`{short(n)}` yields entries in file-system order and is consumed without sorted(): output/errors depend on directory order", construct=what)
+                if isinstance(who, ast.Call) and dotted_of(who.func) == "sorted":
+                    ctx.fail(rule_fs, f, n, f"`{short(n)}` yields entries in file-system order and is sorted with the key `{short(next(kw.value for kw in who.keywords if kw.arg == 'key'))}`, under which different entries can tie; ties keep the file-system order: output/errors depend on directory order", construct=what)
+                else:
+                    ctx.fail(rule_fs, f, n, f"`{short(n)}` yields entries in file-system order and is consumed without sorted(): output/errors depend on directory order", construct=what)
             continue
         if isinstance(n, (ast.Name, ast.Attribute, ast.Call, ast.Set, ast.SetComp, ast.BinOp)):
             how, who = consumer(n)
